@@ -96,6 +96,25 @@ def h_text_roundtrip(S, B):
     u3.__setstate__(u.__getstate__())
     S.check("state-roundtrip-equal", u3 == u)
     S.check("state-roundtrip-same-text", Or(proto == "PYROMETA", eq(str(u3), texts[0])))
+    # serializer path: class_to_dict sends the state tuple, dict_to_class feeds what arrives to __setstate__.  serpent and
+    # marshal deliver the tuple (and a tag set) as they are; json and msgpack deliver lists (the tag set as a list, in any order)
+    if proto == "PYROMETA":
+        arrived = [list(u.__getstate__())] + [[u.protocol, list(perm), u.sockname, u.host, u.port] for perm in permutations(list(u.object))]
+    else:
+        arrived = [list(u.__getstate__())]
+    for st in arrived:
+        u5 = core.URI.__new__(core.URI)
+        u5.__setstate__(st)
+        S.check("uri-through-a-serializer-is-equal", u5 == u)
+        h5 = None
+        try:
+            h5 = hash(u5)
+        except TypeError:
+            S.check("uri-through-a-serializer-is-hashable", False)
+        if h5 is not None and h1 is not None:
+            S.check("uri-through-a-serializer-has-the-same-hash", h5 == h1)
+        if proto != "PYROMETA":
+            S.check("uri-through-a-serializer-has-the-same-text", eq(str(u5), texts[0]))
     # copy constructor
     u4 = core.URI(u)
     S.check("copy-equal", u4 == u)
@@ -192,7 +211,7 @@ SPECS = [
          {"quick": {"L": 7, "PREFIXES": ["PYRO:", "pyro:", "PYRONAME:", "PyroName:", "PYROMETA:", "PYROx:", "PYR", ""]},
           "thorough": {"L": 10, "PREFIXES": ["PYRO:", "pyro:", "PYRONAME:", "PyroName:", "PYROMETA:", "pyrometa:", "PYROx:", "PYR", ""]}},
          covers=["accepted:PYRO", "accepted:PYRONAME", "accepted:PYROMETA", "rejected:PyroError",
-                 "check:text-form-is-a-fixed-point", "check:equal-uris-have-equal-hashes"],
+                 "check:text-form-is-a-fixed-point", "check:equal-uris-have-equal-hashes", "check:uri-through-a-serializer-is-equal"],
          native_patch=env.native_env,
          desc="URI(s) for s = protocol prefix (any letter case variants listed) + L arbitrary code points; str/parse/eq/hash/state round trips; NS_PORT symbolic"),
     Spec("pair", h_pair,
